@@ -23,6 +23,10 @@ CHECKS = {
 SCHED = "stateless model checking: exhaustive preemption-bounded schedule enumeration of real threads under a cooperative scheduler"
 COMP = "exhaustive enumeration of inputs / operation sequences on the real component"
 CHECKS.update({
+ "C05": ("E-SEQ", SEQ, "All enabled write histories up to the depth bound; for every insertion position (and every pair of positions) the history with Compact / Checkpoint inserted must end in the same full dump as the history without; plus an overwrite-and-compact family of N rounds on a 2000-byte key.", "differential oracle (same engine with and without the maintenance operation)", "3/C05"),
+ "C06": ("E-SEQ", SEQ, "All enabled write-only histories (single operations and two-operation transactions incl. delete+re-create and label toggles) up to the depth bound; after the last commit the dump through every read interface must equal the reference GraphModel.", "GraphModel semantics: relationship identity is (start, type, end) with multiplicity; DETACH delete", "3/C06"),
+ "C11": ("E-QUERY", "exhaustive enumeration of a bounded query grammar over all graphs of a bounded scope, compared with an independent reference evaluator", "Every query of the bounded grammar is executed on every graph of the scope and compared with CypherRef (multiset equality, ORDER BY key sequence, SKIP/LIMIT slices).", "reference evaluator cyref.rs is trusted; spec-ambiguous corners excluded (listed in the evidence)", "3/C11"),
+ "C26": ("E-COMP", COMP, "All enabled sequences up to the bound over insert / delete-newest / delete-oldest / delete-absent / reopen on 4 keys (2 of 2000 bytes: 4 cells per leaf) plus all pure-insert sequences over the long keys up to a longer bound; after every step full scan and per-key lookup are compared with a reference multimap.", "bounded key alphabet; payloads are fresh integers", "3/C26"),
  "C03": ("E-SCHED", SCHED, "A writer thread (commits, compaction, index creation) and a reader thread that takes a snapshot at an arbitrary scheduling point run on the real engine; every schedule with at most the stated number of preemptions is executed (points: every lock acquisition and publication step); the snapshot's dump must equal a sequential state between 'operations completed before' and 'operations started before' and must not change in two later dumps.", "sequentially consistent atomics; each dump of an existing snapshot is one scheduling block; page-level MVCC defects are recorded as known findings", "3/C03"),
  "C09": ("E-SCHED", SCHED, "2-3 threads issue read-modify-write statements through ndb_execute_write on one shared node; every schedule with at most the stated number of preemptions is executed; the final state must be the result of some serial order of the successful statements.", "sequentially consistent atomics; scheduling points = instrumented lock acquisitions / publication steps", "3/C09"),
  "C10": ("E-SEQ(handles)", SEQ, "All sequences up to the bound over open/commit/compact/close/drop on two handles, both in-process and with the second handle in a separate process (incl. kill -9); a second open must be refused while a handle is open, must succeed when none is, and exactly the accepted commits must be present at the end.", "cross-process configuration runs on one thread (fork/lock inheritance artefact otherwise)", "3/C10"),
